@@ -83,7 +83,11 @@ func (ex *Exec) run(fn *ssa.Function, args []Value, free []Value) (ret Value) {
 	}
 	if ex.depth > maxd {
 		ex.depth--
-		panic(&PathEnd{Kind: "steps", Msg: fmt.Sprintf("unwinding assertion failed: call depth %d exceeded in %s", maxd, fn)})
+		var stack []string
+		for _, f := range ex.callStack {
+			stack = append(stack, shortFn(f))
+		}
+		panic(&PathEnd{Kind: "steps", Msg: fmt.Sprintf("unwinding assertion failed: call depth %d exceeded in %s", maxd, fn), Stack: stack})
 	}
 	ex.callStack = append(ex.callStack, fn)
 	ex.Stats.Funcs[shortFn(fn)]++
